@@ -361,13 +361,23 @@ fill_bytes (uint8_t *p, size_t n, uint64_t seed, pixman_format_code_t fmt)
     size_t i;
     if (PIXMAN_FORMAT_BPP (fmt) > 32)
     {
-	/* float formats: components in [0,1] (and a few exact 0 / 1), never NaN */
+	/* float formats: valid premultiplied pixels - every component in [0,1], colour <= alpha,
+	 * a few exact 0 / 1, never NaN, never -0.  (Out-of-range floats are not pictures: a
+	 * no-op operator that goes through the float pipeline clamps them, a skipped one
+	 * does not.) */
 	float *f = (float *)p;
+	int per = PIXMAN_FORMAT_BPP (fmt) == 128 ? 4 : 3, c = 0;
+	float alpha = 1.0f;
 	for (i = 0; i + 4 <= n; i += 4)
 	{
 	    uint64_t r = sim_splitmix (&x);
 	    uint32_t k = (uint32_t)(r & 0xffff);
-	    f[i / 4] = (r >> 20 & 7) == 0 ? 0.0f : (r >> 20 & 7) == 1 ? 1.0f : k / 65535.0f;
+	    float v = (r >> 20 & 7) == 0 ? 0.0f : (r >> 20 & 7) == 1 ? 1.0f : k / 65535.0f;
+	    /* rgba_float stores r g b a: draw alpha first for each pixel from the same stream */
+	    if (per == 4 && c == 0) { uint64_t r2 = sim_splitmix (&x); alpha = (r2 >> 9 & 3) == 0 ? 1.0f : (r2 & 0xffff) / 65535.0f; }
+	    if (per == 4) f[i / 4] = c == 3 ? alpha : v * alpha;
+	    else f[i / 4] = v;
+	    c = (c + 1) % per;
 	}
 	return;
     }
@@ -1400,7 +1410,16 @@ machine_pixmask (machine_t *m, int slot)
 {
     mslot_t *s = &m->img[slot];
     uint32_t mask = fmt_defined_mask (s->fmt);
-    if (PIXMAN_FORMAT_BPP (s->fmt) > 32) return 0xffffffffu;
+    if (PIXMAN_FORMAT_BPP (s->fmt) > 32)
+    {
+	/* float formats: per-component mask, components stored r g b [a] */
+	int has_a = PIXMAN_FORMAT_BPP (s->fmt) == 128;
+	uint32_t cm = has_a ? 0xfu : 0x7u;
+	if (s->has_alpha < 0 && s->is_alpha_of == 0) return 0xffffffffu;
+	if (s->has_alpha >= 0 && has_a) cm &= ~0x8u;
+	if (s->is_alpha_of > 0) cm &= has_a ? 0x8u : 0u;
+	return cm;
+    }
     if (s->has_alpha >= 0) mask &= ~fmt_alpha_mask (s->fmt);
     if (s->is_alpha_of > 0) mask &= ~fmt_rgb_mask (s->fmt);
     return mask;
@@ -1593,7 +1612,23 @@ machine_normalise_slot (machine_t *m, int slot)
     s = &m->img[slot];
     if (!s->used || s->kind != MOP_BITS || !s->lowest || !s->img) return;
     bpp = PIXMAN_FORMAT_BPP (s->fmt);
-    if (bpp > 32) return;
+    if (bpp > 32)
+    {
+	/* float formats: a component outside [0,1] (non-premultiplied input fed to a blend
+	 * mode can produce one), a NaN or a negative zero is not a picture; a later operator
+	 * that is skipped on one chain and round-trips through the float pipeline on another
+	 * would clamp it on one side only */
+	long i, nf = (long)s->storage / 4;
+	float *f = (float *)s->lowest;
+	for (i = 0; i < nf; i++)
+	{
+	    float v = f[i];
+	    if (!(v > 0.0f)) v = 0.0f;           /* also NaN and -0 */
+	    else if (v > 1.0f) v = 1.0f;
+	    f[i] = v;
+	}
+	return;
+    }
     mask = machine_pixmask (m, slot);
     if (mask == (bpp == 32 ? 0xffffffffu : ((1u << bpp) - 1))) return;
     st = s->stride < 0 ? -s->stride : s->stride;
